@@ -1,7 +1,7 @@
 SPECIFICATION TSpec
 CHECK_DEADLOCK FALSE
 CONSTANTS
-  Kinds = {"token", "userpass", "kafka"}
+  Kinds = {"token", "userpass", "kafka", "kafka_off"}
   CreateFaults = {0}
   ReadFaults = {0}
   PauseFaults = {0}
